@@ -151,3 +151,79 @@ Theorem C01_every_operation_sequence_with_compact : forall (P : params) (sp sf :
 Proof. exact C01_chain_refines_map_with_compact. Qed.
 Print Assumptions C01_every_operation_sequence_with_compact.
 Definition C01_nonvacuous_with_compact := RunEx.ex_run.
+
+(* ---- the Go arithmetic this property rests on, AS TRANSLATED FROM THE CURRENT SOURCES by tools/gotrans
+   (gen/Funcs.v, operators in GoSem.v), equals the model's, for all values of the Go types ---- *)
+From Coq Require Import ZArith NArith Bool.
+From Pogreb Require Import Base Record Index GoSem FuncsIndexCheck FuncsRecordCheck FuncsLogCheck FuncsFSCheck.
+From Pogreb.gen Require Funcs Consts.
+Import Funcs.
+Open Scope Z_scope.
+
+Theorem C01_go_bucketIndex :
+  forall level split h : N, (level < 32)%N -> (split < 2 ^ 32)%N -> (h < 2 ^ 32)%N ->
+  go_bucketIndex (Z.of_N level) (Z.of_N split) (Z.of_N h) = Z.of_N (bucket_index level split h).
+Proof. exact bucketIndex_ok. Qed.
+Print Assumptions C01_go_bucketIndex.
+
+Theorem C01_go_split_advance :
+  forall level split : N, (level < 32)%N -> (split < 2 ^ level)%N ->
+  go_split_advance (Z.of_N level) (Z.of_N split) = (Z.of_N (fst (advance level split)), Z.of_N (snd (advance level split))).
+Proof. exact split_advance_ok. Qed.
+Print Assumptions C01_go_split_advance.
+
+Theorem C01_go_bucketOffset :
+  forall i : N, (i < 2 ^ 32)%N -> go_bucketOffset (Z.of_N i) = Z.of_N (512 + 512 * i).
+Proof. exact bucketOffset_ok. Qed.
+Print Assumptions C01_go_bucketOffset.
+
+Theorem C01_go_need_swap :
+  forall (full : bool) (size dlen maxseg : N), (size < 2 ^ 62)%N -> (dlen < 2 ^ 62)%N -> (maxseg < 2 ^ 32)%N ->
+  go_need_swap full (Z.of_N size) (Z.of_N dlen) (Z.of_N maxseg) = full || (maxseg <? size + dlen)%N.
+Proof. exact need_swap_ok. Qed.
+Print Assumptions C01_go_need_swap.
+
+Theorem C01_go_trackdel :
+  forall dkeys dbytes ks vs : N, (dkeys < 2 ^ 32)%N -> (dbytes < 2 ^ 32)%N -> (ks < 2 ^ 16)%N -> (vs < 2 ^ 32)%N ->
+  go_trackdel (Z.of_N dkeys) (Z.of_N dbytes) (Z.of_N ks) (Z.of_N vs)
+  = (Z.of_N (u32 (dkeys + 1)), Z.of_N (u32 (dbytes + u32 (rec_overhead + u32 (ks + vs))))).
+Proof. exact trackdel_ok. Qed.
+Print Assumptions C01_go_trackdel.
+
+Theorem C01_go_del_bytes :
+  forall dbytes rlen : N, (dbytes < 2 ^ 32)%N -> (rlen < 2 ^ 32)%N ->
+  go_del_bytes (Z.of_N dbytes) (Z.of_N rlen) = Z.of_N (u32 (dbytes + u32 rlen)).
+Proof. exact del_bytes_ok. Qed.
+Print Assumptions C01_go_del_bytes.
+
+(* ---- the database on the PHYSICAL index (Phys.v: main.pix / overflow.pix as arrays of 512-byte
+   buckets addressed by file offset, createOverflowBucket, the free list): every run of Put / Delete /
+   Get / GetAppend / Has / Count / Items / Sync / Compact returns the outputs of the chain-index
+   database, hence of the plain map, and the physical invariant PhysInv (every pointer valid, no
+   overflow bucket shared by two chains or both in a chain and on the free list, none leaked: the
+   reachable overflow buckets and the free list partition overflow.pix) holds in every reached
+   state (it is part of the relation PR).  The harness compares the BYTES of main.pix and
+   overflow.pix and the free list of the implementation with this model at every dump. *)
+From Pogreb Require Import DBSimExact Phys PhysProofs PhysDB.
+Theorem C01_physical_index_refines_map :
+  forall P (s1 : @DB.st phys) (sp : @DB.st pindex) (sf : @DB.st flat) (l : list op'),
+  params_ok P -> gst_rel PR s1 sp -> st_rel sp sf -> Inv P sf -> MetaOK sf ->
+  Forall op_valid' l -> rooms' P sf l ->
+  Forall2 out_equiv' (run' (step' phys_ops P) s1 l) (run' step_spec' (abs (s_disk sf)) l) /\
+  run' (step' phys_ops P) s1 l = run' (step_chain' P) sp l /\
+  gst_rel PR (final' (step' phys_ops P) s1 l) (final' (step_chain' P) sp l).
+Proof. exact C01_phys_refines_map. Qed.
+Print Assumptions C01_physical_index_refines_map.
+
+Theorem C01_physical_invariant_in_words : forall p, PhysInv p ->
+  exists offs, reachable p = Some offs /\
+    NoDup (offs ++ ph_free p) /\
+    (forall o, In o (offs ++ ph_free p) <-> exists j, o = bucket_off j /\ (j < nlen (ph_over p))%N) /\
+    nlen (ph_over p) = (nlen offs + nlen (ph_free p))%N.
+Proof. exact PhysInv_overflow. Qed.
+Print Assumptions C01_physical_invariant_in_words.
+
+(* sensitivity: a createOverflowBucket that does not pop the free list makes two chains share a
+   bucket and loses a key; a split that forgets freeOverflowBucket leaks *)
+Definition C01_shared_bucket_refuted := PhysRun.create_overflow_nopop_refuted.
+Definition C01_leak_refuted := PhysRun.split_no_free_refuted.
